@@ -80,8 +80,8 @@ class C13(Prop):
             # read stratum: a generated file with mnemonic multisets in ~W, ~C, ~P
             nm = [n for n in NAMES_FILE]
             secs = {}
-            for sec in ("W", "C", "P"):
-                k = g.randint(0, 6)
+            for sec in ("W", "C", "P", "V", "X"):
+                k = g.randint(0, 6) if sec in ("W", "C", "P") else g.choice([0, 0, 1, 2, 3])
                 pool = g.sample(nm, g.randint(1, 4))
                 secs[sec] = [g.choice(pool) for _ in range(k)]
             case = g.choice(["preserve", "upper", "lower"])
@@ -107,11 +107,14 @@ class C13(Prop):
         b = sc["base"]
         f = b["file"]
         lines = docmodel.version_section(f["vers"], "NO")
+        lines += [docmodel.hline(n, "", "%d" % (30 + i), "version extra %d" % i) for i, n in enumerate(f["sections"].get("V", []))]
         wextra = [(n, "", "%d" % (10 + i), "well item %d" % i) for i, n in enumerate(f["sections"]["W"])]
         lines += docmodel.well_section(0.0, 1.0, 0.5, -999.25, "M", wextra, version=f["vers"])
         curves = [("DEPT", "M", "", "index")] + [(n, "", "", "curve %d" % i) for i, n in enumerate(f["sections"]["C"])]
         lines += docmodel.curve_section(curves)
         lines += docmodel.param_section([(n, "", "%d" % (20 + i), "param %d" % i) for i, n in enumerate(f["sections"]["P"])])
+        if f["sections"].get("X"):
+            lines += ["~Xtra custom section"] + [docmodel.hline(n, "", "%d" % (40 + i), "custom %d" % i) for i, n in enumerate(f["sections"]["X"])]
         rows = [["%d" % (i * 10 + j) for j in range(len(curves))] for i in range(3)]
         lines += docmodel.data_section(rows)
         text = docmodel.join(lines)
@@ -128,9 +131,17 @@ class C13(Prop):
         cf = CASEF[b["case"]]
         ci = b["case"] != "preserve"
         expect = {"well": ["STRT", "STOP", "STEP", "NULL"] + f["sections"]["W"],
-                  "curves": ["DEPT"] + f["sections"]["C"], "params": f["sections"]["P"]}
+                  "curves": ["DEPT"] + f["sections"]["C"], "params": f["sections"]["P"],
+                  "version": ["VERS", "WRAP"] + f["sections"].get("V", [])}
+        if f["sections"].get("X"):
+            expect["Xtra custom section"] = f["sections"]["X"]
         for secname, names in expect.items():
-            sec = {"well": las.well, "curves": las.curves, "params": las.params}[secname]
+            sec = {"well": las.well, "curves": las.curves, "params": las.params, "version": las.version}.get(secname)
+            if sec is None:
+                sec = las.sections.get(secname)
+                if sec is None or isinstance(sec, str):
+                    res.violate("C13.read-originals", "custom section %r missing after the read" % secname)
+                    continue
             mapped = [cf(n) for n in names]
             got_o = [it.original_mnemonic for it in sec]
             got_s = [it.mnemonic for it in sec]
@@ -246,8 +257,9 @@ class C13(Prop):
     def shrink_lists(self, sc):
         paths = [("ops",)]
         if sc["base"]["kind"] == "read":
-            for s in ("W", "C", "P"):
-                paths.append(("base", "file", "sections", s))
+            for s in ("W", "C", "P", "V", "X"):
+                if s in sc["base"]["file"]["sections"]:
+                    paths.append(("base", "file", "sections", s))
         return paths
 
     def simplify(self, sc):
